@@ -268,7 +268,7 @@ fn run_net_handoff(c: &NetHandoff) -> Verdict {
                 }
                 let sid = tid(7);
                 let saddr = node_addr(9);
-                add_stub(&hub, sid, saddr, StubScript { reply_nodes: vec![saorsa_core::dht_network_manager::DHTNode { peer_id: b.tid.clone(), address: s.clone(), distance: None, reliability: 1.0, cached_dht_key: None }], ack_put: true, value: None, wrong_id: false });
+                add_stub(&hub, sid, saddr, StubScript { reply_nodes: vec![saorsa_core::dht_network_manager::DHTNode { peer_id: b.tid.clone(), address: s.clone(), distance: None, reliability: 1.0, cached_dht_key: None }], ack_put: true, value: None, wrong_id: false, raw_result: None });
                 let _ = r.th.connect_peer(&saddr.to_string()).await;
                 allowed.push(saddr);
                 rendering = s;
